@@ -217,8 +217,8 @@ Section Builder.
         match get_named E i with
         | Some n =>
             (* scope.Lookup(name) == typ.Obj(): the type is declared in the setup package itself *)
-            if n_has_pkg n && str_eqb (n_pkg_path n) (d_pkg_path d) then Ok (Some (NCast inner t (cast_operator t (n_name n))))
-            else if negb (n_has_pkg n) then Panic (s2b "NewTypecast: named type without package")
+            (* a predeclared named type (error) has no package and is spelled bare *)
+            if negb (n_has_pkg n) || str_eqb (n_pkg_path n) (d_pkg_path d) then Ok (Some (NCast inner t (cast_operator t (n_name n))))
             else match lookup_name d (n_pkg_path n) with
                  | Some pn => Ok (Some (NCast inner t (cast_operator t (pn ++ [46] ++ n_name n))))
                  | None => Ok (Some (NCast inner t (cast_operator t (n_pkg_name n ++ [46] ++ n_name n))))
